@@ -48,6 +48,8 @@ type Obligation struct {
 
 // Config of one unit run.
 type Config struct {
+	FrameSummary bool // C18: one summary frame obligation per unit
+	Z3Alt string // second solver tried on a standalone script the first one does not decide
 	AutoConcrete int // unannotated loops with a constant trip count up to this value are unrolled
 	InlineOnPreFail bool // a callee whose precondition cannot be proved is executed from its body instead (C20: values outside every invariant)
 	MaxPaths     int
@@ -69,7 +71,7 @@ type Config struct {
 }
 
 func DefaultConfig() Config {
-	return Config{MaxPaths: 4000, MaxDepth: 14, QueryMs: 5000, FeasMs: 150, UnitSec: 400, MaxUnroll: 3, Safety: true, Z3: "z3-new", WantModel: true, InlineAcross: true, AutoConcrete: 4}
+	return Config{MaxPaths: 4000, MaxDepth: 14, QueryMs: 5000, FeasMs: 150, UnitSec: 400, MaxUnroll: 3, Safety: true, Z3: "z3-new", Z3Alt: "z3", WantModel: true, InlineAcross: true, AutoConcrete: 4}
 }
 
 // Unit is the verification of one target function (or lemma).
@@ -122,9 +124,12 @@ type Unit struct {
 	Standalone int
 	cellByID map[int]*Cell
 	divMemo  map[string]divEntry
-	eqFacts  []eqFact
+	wreads   []readRec
+	witnessMode int
+	instBudget  int // instantiations left for the witness being processed
 	seqFacts []*seqFact
 	sigLog   []*sigEntry
+	StoresSeen int
 	curMethod string
 	shapesSeen map[string]bool
 	ErrorReturns int
@@ -193,7 +198,6 @@ func NewUnit(p *Program, target *ssa.Function, cfg Config) *Unit {
 	u.SkippedMethods = map[string]bool{}
 	u.MethodRuns = map[string]int{}
 	u.divMemo = map[string]divEntry{}
-	u.reads = map[string][]readRec{}
 	u.readMemo = map[string]divEntry{}
 	u.blkInfo = map[string]blkMeta{}
 	u.ifBase = map[string]*Term{}
@@ -264,92 +268,63 @@ func (u *Unit) newArr(prefix string) *Term {
 }
 
 type readRec struct {
+	base     string
 	idx, val *Term
 	scope    int
 }
 
-// addEqFact registers a sequence-equality fact and instantiates it at the
-// reads already made from the base arrays it mentions.
-func (u *Unit) addEqFact(f eqFact) {
-	u.eqFacts = append(u.eqFacts, f)
+// onRead is called for every read of a base (uninterpreted) array.  Only
+// reads made while a witness index is being evaluated (witnessMode) matter:
+// each named sequence equality that mentions the array is instantiated at the
+// position being read (executor-side E-matching, restricted to the indices a
+// refutation of "the sequences differ at wk" can need).
+func (u *Unit) onRead(base string, idx *Term, val *Term) {
+	if u.witnessMode == 0 || u.binder > 0 {
+		return
+	}
+	rk := "wread:" + base + "@" + idx.S
+	if e, ok := u.readMemo[rk]; ok && u.S.Alive(e.scope) {
+		return
+	}
+	u.readMemo[rk] = divEntry{q: TTrue, scope: u.S.ScopeID()}
+	r := readRec{base: base, idx: idx, val: val, scope: u.S.ScopeID()}
+	u.wreads = append(u.wreads, r)
+	if u.instDepth >= 5 {
+		return
+	}
+	for _, f := range append([]*seqFact(nil), u.seqFacts...) {
+		if u.S.Alive(f.scope) {
+			u.instAtRead(f, r)
+		}
+	}
+}
+
+// instAtRead: fact f says a1[o1+k] == a2[o2+k] for 0 <= k < l; the read r is
+// a1[idx] (or a2[idx]): instantiate k := idx - o1.
+func (u *Unit) instAtRead(f *seqFact, r readRec) {
 	for side := 0; side < 2; side++ {
 		a, o, b, ob := f.a1, f.o1, f.a2, f.o2
 		if side == 1 {
 			a, o, b, ob = f.a2, f.o2, f.a1, f.o1
 		}
-		if a.Base == "" {
+		if a.Base == "" || a.Base != r.base {
 			continue
 		}
-		recs := u.reads[a.Base]
-		live := recs[:0]
-		for _, r := range recs {
-			if u.S.Alive(r.scope) {
-				live = append(live, r)
-			}
+		if u.instBudget <= 0 {
+			return
 		}
-		u.reads[a.Base] = live
-		for _, r := range append([]readRec(nil), live...) {
-			key := fmt.Sprintf("inst:%d:%d@%s", f.id, side, r.idx.S)
-			if e, ok := u.readMemo[key]; ok && u.S.Alive(e.scope) {
-				continue
-			}
-			u.readMemo[key] = divEntry{q: TTrue, scope: u.S.ScopeID()}
-			u.instDepth++
-			other := Select(b, Add(ob, Sub(r.idx, o)))
-			u.instDepth--
-			u.S.Assert(Implies(And(f.guard, Le(o, r.idx), Lt(r.idx, Add(o, f.l))), Eq(r.val, other)))
-			u.Instances++
-		}
-	}
-}
-
-type eqFact struct {
-	id             int
-	guard          *Term
-	a1, o1, a2, o2 *Term
-	l              *Term
-	scope          int
-}
-
-// onRead instantiates, at the index being read, every live sequence-equality
-// fact that mentions the base array.
-func (u *Unit) onRead(base string, idx *Term, val *Term) {
-	if u.binder > 0 {
-		return
-	}
-	// remember the read: facts learnt later are instantiated at it too
-	rk := "read:" + base + "@" + idx.S
-	if e, ok := u.readMemo[rk]; !ok || !u.S.Alive(e.scope) {
-		u.readMemo[rk] = divEntry{q: TTrue, scope: u.S.ScopeID()}
-		u.reads[base] = append(u.reads[base], readRec{idx: idx, val: val, scope: u.S.ScopeID()})
-	}
-	if u.instDepth >= 3 || len(u.eqFacts) == 0 {
-		return
-	}
-	u.instDepth++
-	defer func() { u.instDepth-- }()
-	for i := 0; i < len(u.eqFacts); i++ {
-		f := u.eqFacts[i]
-		if !u.S.Alive(f.scope) {
+		key := fmt.Sprintf("winst:%s:%d@%s", f.e.S, side, r.idx.S)
+		if e, ok := u.readMemo[key]; ok && u.S.Alive(e.scope) {
 			continue
 		}
-		for side := 0; side < 2; side++ {
-			a, o, b, ob := f.a1, f.o1, f.a2, f.o2
-			if side == 1 {
-				a, o, b, ob = f.a2, f.o2, f.a1, f.o1
-			}
-			if a.Base != base {
-				continue
-			}
-			key := fmt.Sprintf("inst:%d:%d@%s", f.id, side, idx.S)
-			if e, ok := u.readMemo[key]; ok && u.S.Alive(e.scope) {
-				continue
-			}
-			u.readMemo[key] = divEntry{q: TTrue, scope: u.S.ScopeID()}
-			other := Select(b, Add(ob, Sub(idx, o)))
-			u.S.Assert(Implies(And(f.guard, Le(o, idx), Lt(idx, Add(o, f.l))), Eq(val, other)))
-			u.Instances++
-		}
+		u.readMemo[key] = divEntry{q: TTrue, scope: u.S.ScopeID()}
+		k := Sub(r.idx, o)
+		u.instDepth++
+		other := Select(b, Add(ob, k))
+		u.instDepth--
+		u.S.Assert(Implies(And(f.e, Le(IntLit(0), k), Lt(k, f.l)), Eq(r.val, other)))
+		u.Instances++
+		u.instBudget--
 	}
 }
 
@@ -568,10 +543,20 @@ func (u *Unit) check(st *State, name, kind string, goal *Term, text string) bool
 		for _, cj := range goal.Conj {
 			rr, mm := u.S.CheckGoalT(cj, want, 1500)
 			if rr == "unknown" {
-				rr, _ = RunScript(u.Cfg.Z3, u.S.Script(cj, "z3"), time.Duration(u.Cfg.QueryMs)*time.Millisecond)
+				sc := u.S.Script(cj, "z3")
+				rr, _ = RunScript(u.Cfg.Z3, sc, time.Duration(u.Cfg.QueryMs)*time.Millisecond)
 				u.Standalone++
 				if rr == "unsat" && o.Solver == "" {
 					o.Solver = u.Cfg.Z3 + " (standalone)"
+				}
+				if rr != "unsat" && rr != "sat" && u.Cfg.Z3Alt != "" {
+					// second opinion: the other solver version decides many
+					// quantified goals the first one times out on
+					rr, _ = RunScript(u.Cfg.Z3Alt, sc, time.Duration(u.Cfg.QueryMs)*time.Millisecond)
+					u.Standalone++
+					if rr == "unsat" && o.Solver == "" {
+						o.Solver = u.Cfg.Z3Alt + " (standalone)"
+					}
 				}
 			}
 			if rr != "unsat" {
@@ -586,12 +571,19 @@ func (u *Unit) check(st *State, name, kind string, goal *Term, text string) bool
 		r, model = u.S.CheckGoalT(goal, want, 1500)
 	}
 	if r == "unknown" && len(goal.Conj) <= 1 {
-		r2, _ := RunScript(u.Cfg.Z3, u.S.Script(goal, "z3"), time.Duration(u.Cfg.QueryMs)*time.Millisecond)
+		sc := u.S.Script(goal, "z3")
+		r2, _ := RunScript(u.Cfg.Z3, sc, time.Duration(u.Cfg.QueryMs)*time.Millisecond)
 		u.Standalone++
+		who := u.Cfg.Z3
+		if r2 != "unsat" && r2 != "sat" && u.Cfg.Z3Alt != "" {
+			r2, _ = RunScript(u.Cfg.Z3Alt, sc, time.Duration(u.Cfg.QueryMs)*time.Millisecond)
+			u.Standalone++
+			who = u.Cfg.Z3Alt
+		}
 		if r2 == "unsat" {
 			r = "unsat"
 			if o.Solver == "" {
-				o.Solver = u.Cfg.Z3 + " (standalone)"
+				o.Solver = who + " (standalone)"
 			}
 		} else if r2 == "sat" {
 			r = "sat"
